@@ -49,6 +49,12 @@ fn model_has(done: &BTreeMap<TaskId, crate::model::Exec>, s: TaskId, f: impl Fn(
   done.get(&s).map(|e| e.deps.iter().any(|d| f(d))).unwrap_or(false)
 }
 
+/// The stale edge named by the error must be one that the task really created (task-side log): its last execution -
+/// completed, or cut by an abort after the access had returned - read (`write == false`) or wrote `r`.
+fn sh_has(sh: &Shadow, t: TaskId, r: ResId, write: bool) -> bool {
+  sh.last.get(&t).map(|e| e.ops.iter().any(|d| match d { Dep::Write { r: x, .. } => write && *x == r, Dep::Read { r: x, .. } => !write && *x == r, _ => false })).unwrap_or(false)
+}
+
 fn model_reaches(done: &BTreeMap<TaskId, crate::model::Exec>, from: TaskId, to: TaskId) -> bool {
   let mut seen = BTreeSet::new();
   let mut stack = vec![from];
@@ -93,16 +99,16 @@ pub fn judge_abort(case: &Case, sess: &engine::SessionRec, bi: usize, msg: &str,
       let sig: Option<&'static str> = match kind {
         PanicKind::Overlap if ts.len() >= 2 && !rs.is_empty() => {
           let (s, r) = (ts[1], rs[0]);
-          if !cur_set.contains(&s) && !model_has(&done, s, |d| matches!(d, Dep::Write { r: x, .. } if *x == r)) { Some("C20-F1/overlap-with-stale-writer-edge") } else { None }
+          if !cur_set.contains(&s) && sh_has(sh, s, r, true) && !model_has(&done, s, |d| matches!(d, Dep::Write { r: x, .. } if *x == r)) { Some("C20-F1/overlap-with-stale-writer-edge") } else { None }
         }
         PanicKind::HiddenRead if ts.len() >= 2 && !rs.is_empty() => {
           let (s, r) = (ts[1], rs[0]);
-          if !cur_set.contains(&s) && !model_has(&done, s, |d| matches!(d, Dep::Write { r: x, .. } if *x == r)) { Some("C20-F4/hidden-dependency-on-read-with-stale-writer-edge") } else { None }
+          if !cur_set.contains(&s) && sh_has(sh, s, r, true) && !model_has(&done, s, |d| matches!(d, Dep::Write { r: x, .. } if *x == r)) { Some("C20-F4/hidden-dependency-on-read-with-stale-writer-edge") } else { None }
         }
         PanicKind::HiddenWrite if ts.len() >= 2 && !rs.is_empty() => {
           let (w, s, r) = (ts[0], ts[1], rs[0]);
           let reads_now = model_has(&done, s, |d| matches!(d, Dep::Read { r: x, .. } if *x == r));
-          if !cur_set.contains(&s) && (!reads_now || model_reaches(&done, s, w)) { Some("C20-F3/hidden-dependency-on-write-with-stale-reader-record") } else { None }
+          if !cur_set.contains(&s) && sh_has(sh, s, r, false) && (!reads_now || model_reaches(&done, s, w)) { Some("C20-F3/hidden-dependency-on-write-with-stale-reader-record") } else { None }
         }
         PanicKind::Cycle if ts.len() >= 2 => {
           let (src, dst) = (ts[0], ts[1]);
@@ -195,6 +201,59 @@ fn c20_extra(_spec: &Spec, tier: Tier, seed: u64, known: &Known, report: &mut Re
   let scfg = SearchCfg { prop: "C20", label: "guarded", seed, shards, cases_per_shard: cases, max_shrink_iters: 3000 };
   let (stats, found) = driver::search(&scfg, known, || super::diag::strategy(gcfg.clone()), |c, s| super::diag::check(c, super::diag::Mode::C20, s), |c| pretty_case(c));
   report.absorb("guarded", stats, found);
+  // (c) aborts (task failures, injected panics) followed by bottom-up builds.
+  let (shards, cases) = match tier { Tier::Quick => (8, 8000), Tier::Thorough => (16, 120000) };
+  let acfg = after_aborts_cfg(tier);
+  let scfg = SearchCfg { prop: "C20", label: "after-aborts", seed, shards, cases_per_shard: cases, max_shrink_iters: 3000 };
+  let (stats, found) = driver::search(&scfg, known, || { use proptest::strategy::Strategy; gen::case_strategy(acfg.clone()).boxed() }, |c, s| check_after_aborts(c, s), |c| pretty_case(c));
+  report.absorb("after-aborts", stats, found);
+}
+
+/// (c) Static-role programs whose tasks may fail, with injected panics, and bottom-up builds after the aborts: the only
+/// demand is C20's - no build aborts with a cycle / hidden-dependency / overlap error (these programs contain none).
+pub fn check_after_aborts(case: &Case, stats: &mut Stats) -> CheckResult {
+  let run = engine::run_case(case, &Opts::default());
+  let mut seen_abort = false;
+  let mut bu_after_abort = false;
+  let mut bu_exec_after_abort = false;
+  for (si, sess) in run.sessions.iter().enumerate() {
+    for (bi, b) in sess.builds.iter().enumerate() {
+      let is_bu = matches!(b.kind, BuildKind::BottomUp(_));
+      if seen_abort && is_bu {
+        bu_after_abort = true;
+        if run.log[b.log.clone()].iter().any(|l| matches!(l, L::TEnter(_))) { bu_exec_after_abort = true; }
+      }
+      let BuildResult::Panic(msg) = &b.result else { continue; };
+      match panic_kind(msg) {
+        PanicKind::Injected | PanicKind::TaskPanic => {}
+        // Internal errors of bottom-up builds after an abort are outside every listed property (C19 claims later
+        // top-down builds only); counted, not judged here.
+        PanicKind::Internal => { stats.class(if is_bu { "internal_error_in_bottom_up_build_after_abort_(not_judged)" } else { "internal_error_in_top_down_build_(judged_by_C19)" }); }
+        _ => {
+          let what = format!("[c20-abort-in-well-formed-program] session {} build {} ({:?}) after {}an earlier abort: {}", si, bi, b.kind, if seen_abort { "" } else { "no " }, msg);
+          if seen_abort && super::build::c19_f1_signature(&run, b, msg) {
+            stats.class("c20_f5_hidden_dependency_after_abort_cut_a_path");
+            return Err(Failure::with_sig(what, "C20-F5/hidden-write-after-aborted-intermediate"));
+          }
+          return Err(Failure::new(what));
+        }
+      }
+      seen_abort = true;
+    }
+  }
+  if seen_abort { stats.class("case_with_abort"); }
+  if bu_after_abort { stats.class("bottom_up_build_after_an_abort"); }
+  if bu_exec_after_abort { stats.class("bottom_up_build_executing_tasks_after_an_abort"); stats.nontrivial(fingerprint(case)); sample(case, stats); }
+  Ok(())
+}
+
+fn after_aborts_cfg(t: Tier) -> GenCfg {
+  let mut c = bu_cfg(t);
+  c.bottom_up_weight = 3;
+  c.task_panic_share = 8;
+  c.panic_steps = true;
+  c.bu_with_task_panics = true;
+  c
 }
 
 pub fn replay_roles(case: &Case) -> CheckResult { driver::guarded(|| check_roles(case, &mut Stats::dummy())) }
